@@ -1,4 +1,5 @@
-"""C13 - the journal is a faithful per-session, per-direction message store.
+"""C13 - the journal is a faithful per-session, per-direction message store
+   (the same harnesses carry the C08 crash-consistency clauses, selected by `which`).
 
 Functions under contract (real source of asyncfix/journaler.py, re-read on every run):
   Journaler.__init__, create_or_load, sessions, find_seq_no, persist_msg, set_seq_num,
@@ -6,7 +7,8 @@ Functions under contract (real source of asyncfix/journaler.py, re-read on every
 Assumed contract: the sqlite3 module (vfy/pyvc/sqlmodel.py).  The SQL statements are parsed from the string
 literals the real methods hand to cursor.execute, so the WHERE / SET / ORDER BY text is part of what is proved.
 
-Every clause is one sentence of the statement, evaluated at probe keys (arbitrary keys => all keys).
+Every clause is one sentence of the statement, evaluated at probe keys (arbitrary keys => all keys).  The clause
+functions are shared by the symbolic evaluation (JEnv) and the concrete evaluation of a native observation (CEnv).
 """
 import z3
 
@@ -15,13 +17,36 @@ from pyvc.core import And, Eq, Implies, Not, Or, SBool, SInt, SStr, Outside, _t
 from pyvc.interp import Config, Obj, PyRaise, PyDict, PyList, SSeq
 from pyvc import sqlmodel as sm
 import journal_common as jc
-from journal_common import JEnv, JView, IN, OUT, same_msg_at, same_sess_at
+from journal_common import JEnv, JView, CEnv, CSess, IN, OUT, same_msg_at, same_sess_at, is_session
 
 JQ = jc.JQ
 
 
-def _is_session(v):
-    return isinstance(v, Obj) and v.cls.name == "FIXSession"
+class CExc:
+    def __init__(self, n):
+        self.n = n
+
+    def name(self):
+        return self.n
+
+
+def keep(cl, which):
+    """C13 keeps the map clauses, C08 the crash-consistency ones (prefix c08.)."""
+    if which == "c08":
+        return [(n, c) for n, c in cl if n.startswith("c08.")]
+    return [(n, c) for n, c in cl if not n.startswith("c08.")]
+
+
+def crash_clauses(env, post, extra_m=(), extra_s=()):
+    """C08: every durable state the file goes through during the call is the complete post-state (the pre-state is
+    the other boundary): the operation in flight is applied entirely or not at all."""
+    cl = []
+    for dv in env.commit_points():
+        for (k, sx, dx) in list(env.msg_probes()) + list(extra_m):
+            cl.append(("c08.commit_is_whole_op.messages", same_msg_at(dv, post, k, sx, dx)))
+        for i in list(env.sess_probes()) + list(extra_s):
+            cl.append(("c08.commit_is_whole_op.sessions", same_sess_at(dv, post, i)))
+    return cl
 
 
 # ---------------------------------------------------------------------------
@@ -32,7 +57,7 @@ def _is_session(v):
 def create_or_load_clauses(env, out, t, u):
     pre, post = env.pre, env.post()
     cl = []
-    ok = out[0] == "ret" and _is_session(out[1])
+    ok = out[0] == "ret" and is_session(out[1])
     cl.append(("load.returns_session", ok))
     if not ok:
         return cl
@@ -55,19 +80,19 @@ def create_or_load_clauses(env, out, t, u):
     for (k, sx, d) in env.msg_probes():
         cl.append(("load.messages_untouched", same_msg_at(pre, post, k, sx, d)))
     cl += env.wf("load.")
+    cl += env.committed()
+    cl += crash_clauses(env, post, extra_s=[key])
     return cl
 
 
-def create_or_load_harness(existing):
+def create_or_load_harness(existing, which):
     def harness(I):
         env = JEnv(I, existing=existing)
         t, u = I.ctx.inp_str("target"), I.ctx.inp_str("sender")
         out = jc.run(I, I.getattr(env.j, "create_or_load"), [t, u])
         jc.outcome_note(I, out)
-        jc.observe_db(env, {"ret_key": out[1].f["key"] if out[0] == "ret" and _is_session(out[1]) else None,
-                            "ret_nout": out[1].f["next_num_out"] if out[0] == "ret" and _is_session(out[1]) else None,
-                            "ret_nin": out[1].f["next_num_in"] if out[0] == "ret" and _is_session(out[1]) else None})
-        return create_or_load_clauses(env, out, t, u) + env.committed()
+        jc.observe_db(env)
+        return keep(create_or_load_clauses(env, out, t, u), which)
     return harness
 
 
@@ -76,44 +101,66 @@ def create_or_load_harness(existing):
 # ---------------------------------------------------------------------------
 
 
-def sessions_harness(I):
-    env = JEnv(I, existing=True)
+def sessions_harness(which):
+    def harness(I):
+        env = JEnv(I, existing=True)
+        pre = env.pre
+        out = jc.run(I, I.getattr(env.j, "sessions"), [])
+        jc.outcome_note(I, out)
+        post = env.post()
+        cl = [("sessions.returns_dict", out[0] == "ret" and isinstance(out[1], PyDict))]
+        if not cl[0][1]:
+            return keep(cl, which)
+        m = out[1]
+        if isinstance(m, sm.SymMap):
+            r = SInt(m.rowkey[0])
+            val = m.gvalue
+            key = m.gkey
+            okshape = isinstance(key, tuple) and len(key) == 2 and is_session(val)
+            cl.append(("sessions.entry_shape", okshape))
+            if okshape:
+                cl.append(("sessions.keyed_by_compids", And(Eq(key[0], pre.target(r)), Eq(key[1], pre.sender(r)))))
+                cl.append(("sessions.entry_identity", And(Eq(val.f["key"], r), Eq(val.f["target_comp_id"], pre.target(r)),
+                                                          Eq(val.f["sender_comp_id"], pre.sender(r)))))
+                # "every way of loading a session reports the same next inbound and outbound numbers":
+                # create_or_load reports stored + 1 (load.next_numbers_are_stored_plus_one)
+                cl.append(("sessions.load_paths_agree.out", Eq(val.f["next_num_out"], pre.out(r) + 1)))
+                cl.append(("sessions.load_paths_agree.in", Eq(val.f["next_num_in"], pre.inn(r) + 1)))
+            for i in env.sess_probes():
+                # every stored session is listed: the result set is the whole table
+                cl.append(("sessions.lists_every_session", Eq(SBool(m.rs.pred((_t(i),))), pre.has_sess(i))))
+                # no two rows share a key of the dict (UNIQUE): the entry of a row is not overwritten by another
+                cl.append(("sessions.entries_not_overwritten",
+                           Implies(And(pre.has_sess(i), pre.has_sess(r), Eq(pre.target(i), pre.target(r)),
+                                       Eq(pre.sender(i), pre.sender(r))), Eq(i, r))))
+        else:
+            cl.append(("sessions.empty_only_when_no_session", len(m.d) == 0))
+            for i in env.sess_probes():
+                cl.append(("sessions.empty_only_when_no_session", Not(pre.has_sess(i))))
+        cl += env.unchanged(pre, post, "sessions.journal_unchanged")
+        cl += env.committed()
+        jc.observe_db(env)
+        return keep(cl, which)
+    return harness
+
+
+def sessions_concrete(env, out):
+    """The same sentences on a native observation: out = ("ret", [[(t,u), CSess]...])."""
     pre = env.pre
-    out = jc.run(I, I.getattr(env.j, "sessions"), [])
-    jc.outcome_note(I, out)
-    post = env.post()
-    cl = [("sessions.returns_dict", out[0] == "ret" and isinstance(out[1], PyDict))]
-    if not cl[0][1]:
+    cl = [("sessions.returns_dict", out[0] == "ret")]
+    if out[0] != "ret":
         return cl
-    m = out[1]
-    if isinstance(m, sm.SymMap):
-        r = SInt(m.rowkey[0])
-        val = m.gvalue
-        key = m.gkey
-        okshape = isinstance(key, tuple) and len(key) == 2 and _is_session(val)
-        cl.append(("sessions.entry_shape", okshape))
-        if okshape:
-            cl.append(("sessions.keyed_by_compids", And(Eq(key[0], pre.target(r)), Eq(key[1], pre.sender(r)))))
-            cl.append(("sessions.entry_identity", And(Eq(val.f["key"], r), Eq(val.f["target_comp_id"], pre.target(r)),
-                                                      Eq(val.f["sender_comp_id"], pre.sender(r)))))
-            # "every way of loading a session reports the same next inbound and outbound numbers":
-            # create_or_load reports stored + 1 (load.next_numbers_are_stored_plus_one)
-            cl.append(("sessions.load_paths_agree.out", Eq(val.f["next_num_out"], pre.out(r) + 1)))
-            cl.append(("sessions.load_paths_agree.in", Eq(val.f["next_num_in"], pre.inn(r) + 1)))
-        # every stored session is listed: the result set is the whole table
-        for i in env.sess_probes():
-            cl.append(("sessions.lists_every_session", Eq(SBool(m.rs.pred((_t(i),))), pre.has_sess(i))))
-            # no two rows share a key of the dict (UNIQUE): the entry of a row is not overwritten by another
-            cl.append(("sessions.entries_not_overwritten",
-                       Implies(And(pre.has_sess(i), pre.has_sess(r), Eq(pre.target(i), pre.target(r)),
-                                   Eq(pre.sender(i), pre.sender(r))), Eq(i, r))))
-    else:
-        cl.append(("sessions.empty_only_when_no_session", len(m.d) == 0))
-        for i in env.sess_probes():
-            cl.append(("sessions.empty_only_when_no_session", Not(pre.has_sess(i))))
-    cl += env.unchanged(pre, post, "sessions.journal_unchanged")
-    cl += env.committed()
-    jc.observe_db(env)
+    listed = {tuple(k): v for k, v in out[1]}
+    for i in pre.S:
+        k = (pre.target(i), pre.sender(i))
+        cl.append(("sessions.lists_every_session", k in listed))
+        if k in listed:
+            v = listed[k]
+            cl.append(("sessions.entry_identity", v.f["key"] == i))
+            cl.append(("sessions.load_paths_agree.out", v.f["next_num_out"] == pre.out(i) + 1))
+            cl.append(("sessions.load_paths_agree.in", v.f["next_num_in"] == pre.inn(i) + 1))
+    cl.append(("sessions.empty_only_when_no_session", len(listed) == len(pre.S)))
+    cl += env.unchanged(pre, env.post(), "sessions.journal_unchanged")
     return cl
 
 
@@ -122,20 +169,8 @@ def sessions_harness(I):
 # ---------------------------------------------------------------------------
 
 
-def persist_harness(I):
-    env = JEnv(I, existing=True)
-    c = I.ctx
-    pre = env.pre
-    sess, skey = env.session_obj()
-    dirv, d = env.direction()
-    msg = c.inp_str("msg", is_bytes=True)
-    # the number the journal files the message under is find_seq_no(msg) (its contract: task find_seq_no)
-    fs = jc.run(I, I.repo.get(JQ + ".find_seq_no"), [msg])
-    env.db.probe("message", (fs[1], skey, d)) if fs[0] == "ret" else None
-    nout0, nin0 = sess.f["next_num_out"], sess.f["next_num_in"]
-    out = jc.run(I, I.getattr(env.j, "persist_msg"), [msg, sess, dirv])
-    jc.outcome_note(I, out)
-    post = env.post()
+def persist_clauses(env, out, fs, skey, d, msg, sess_same):
+    pre, post = env.pre, env.post()
     cl = []
     if fs[0] == "raise":
         cl.append(("persist.unparsable_refused", out[0] == "raise" and out[1].name() == fs[1].name()))
@@ -162,18 +197,102 @@ def persist_harness(I):
                                                        Eq(post.sender(skey), pre.sender(skey)))))
             for i in env.sess_probes():
                 cl.append(("persist.other_sessions_untouched", Implies(Not(Eq(i, skey)), same_sess_at(pre, post, i))))
-    cl.append(("persist.session_object_untouched", And(Eq(sess.f["next_num_out"], nout0), Eq(sess.f["next_num_in"], nin0))))
+    cl.append(("persist.session_object_untouched", sess_same))
     cl += env.wf("persist.")
     cl += env.committed()
-    # C08: the file never holds the message row without its counter (or the counter without the row):
-    # every durable state during the call is the pre-state or the complete post-state
-    for dv in env.commit_points():
-        for (k, sx, dx) in env.msg_probes() + ([(fs[1], skey, d)] if fs[0] == "ret" else []):
-            cl.append(("c08.commit_is_whole_op.messages", same_msg_at(dv, post, k, sx, dx)))
-        for i in env.sess_probes() + [skey]:
-            cl.append(("c08.commit_is_whole_op.sessions", same_sess_at(dv, post, i)))
-    jc.observe_db(env, {"fs": fs[1] if fs[0] == "ret" else None})
+    cl += crash_clauses(env, post, extra_m=[(fs[1], skey, d)] if fs[0] == "ret" else [], extra_s=[skey])
     return cl
+
+
+def contract_find_seq_no(I, args, kwargs):
+    """Journaler.find_seq_no by contract: the MsgSeqNum of the frame, or FIXMessageError; pure."""
+    msg = args[-1]
+    fsn = z3.Function("fsn", z3.StringSort(), z3.IntSort())
+    fok = z3.Function("fsn_ok", z3.StringSort(), z3.BoolSort())
+    if not isinstance(msg, SStr):
+        raise Outside("find_seq_no contract: concrete message")
+    if I.ctx.branch(SBool(fok(msg.t))):
+        return SInt(fsn(msg.t))
+    I.raise_repo("asyncfix.errors.FIXMessageError")
+
+
+def persist_cfg():
+    cfg = jc.journal_cfg()
+    cfg.contracts[JQ + ".find_seq_no"] = contract_find_seq_no
+    return cfg
+
+
+SOH34 = "\x0134="
+
+
+def find_seq_no_harness(I):
+    """The real find_seq_no against the contract persist_msg (and C05) rely on.
+
+    For a frame  h ++ SOH"34=" ++ d ++ SOH ++ r  whose first SOH"34=" is the one shown (none inside h) and whose
+    MsgSeqNum text d is a non-empty run of ASCII digits: the result is the number d denotes.  Every failure is
+    reported as FIXMessageError, whatever the bytes."""
+    c = I.ctx
+    h, d, r = c.inp_str("h", is_bytes=True), c.inp_str("d", is_bytes=True), c.inp_str("r", is_bytes=True)
+    c.assume(SBool(z3.Not(z3.Contains(h.t, z3.StringVal(SOH34)))))
+    c.assume(SBool(z3.InRe(d.t, z3.Plus(z3.Range("0", "9")))))
+    msg = SStr(z3.Concat(h.t, z3.StringVal(SOH34), d.t, z3.StringVal("\x01"), r.t), is_bytes=True)
+    # lemmas about the frame (cuts: proved here by cvc5, then available to the path exploration)
+    lh, ld = z3.Length(h.t), z3.Length(d.t)
+    c.lemma("lemma.first_34_field_at_len_h", SBool(z3.IndexOf(msg.t, z3.StringVal(SOH34), 0) == lh))
+    c.lemma("lemma.next_soh_after_digits", SBool(z3.IndexOf(msg.t, z3.StringVal("\x01"), lh + 1) == lh + 4 + ld))
+    c.lemma("lemma.field_text_is_d", SBool(z3.SubString(msg.t, lh + 4, ld) == d.t))
+    from pyvc.strings import py_int_accept_re
+    c.lemma("lemma.digits_are_int_literal", SBool(z3.InRe(d.t, py_int_accept_re())))
+    out = jc.run(I, I.repo.get(JQ + ".find_seq_no"), [msg])
+    jc.outcome_note(I, out)
+    cl = [("find_seq_no.returns_number", out[0] == "ret" and isinstance(out[1], (SInt, int)))]
+    if cl[0][1]:
+        cl.append(("find_seq_no.is_msgseqnum", Eq(out[1], SInt(z3.StrToInt(d.t)))))
+    return cl
+
+
+def find_seq_no_total_harness(I):
+    c = I.ctx
+    msg = c.inp_str("msg", is_bytes=True)
+    out = jc.run(I, I.repo.get(JQ + ".find_seq_no"), [msg])
+    jc.outcome_note(I, out)
+    return [("find_seq_no.only_message_error", out[0] == "ret" or out[1].name() == "FIXMessageError")]
+
+
+def precise_cfg():
+    cfg = Config()
+    cfg.int_model = "precise"
+    return cfg
+
+
+def persist_harness(which):
+    def harness(I):
+        env = JEnv(I, existing=True)
+        c = I.ctx
+        sess, skey = env.session_obj()
+        dirv, d = env.direction()
+        msg = c.inp_str("msg", is_bytes=True)
+        # the number the journal files the message under is find_seq_no(msg); callee by contract (task find_seq_no
+        # proves the real body against it): returns fsn(msg) or raises FIXMessageError, no side effect
+        fs = jc.run(I, I.repo.get(JQ + ".find_seq_no"), [msg])
+        fsn = z3.Function("fsn", z3.StringSort(), z3.IntSort())
+        fok = z3.Function("fsn_ok", z3.StringSort(), z3.BoolSort())
+        hn = z3.Int("hint_n")
+        # replay models: a frame template for which the contract's uninterpreted result is the real one
+        c.realism += [z3.Or(z3.And(hn >= 0, hn < 100000, fok(msg.t), fsn(msg.t) == hn,
+                                   msg.t == z3.Concat(z3.StringVal("8=FIX.4.4\x0134="), z3.IntToStr(hn),
+                                                      z3.StringVal("\x0110=000\x01"))),
+                            z3.And(z3.Not(fok(msg.t)), msg.t == z3.StringVal("8=FIX.4.4\x0135=0\x01")))]
+        if fs[0] == "ret":
+            env.db.probe("message", (fs[1], skey, d))
+        nout0, nin0 = sess.f["next_num_out"], sess.f["next_num_in"]
+        out = jc.run(I, I.getattr(env.j, "persist_msg"), [msg, sess, dirv])
+        jc.outcome_note(I, out)
+        same = And(Eq(sess.f["next_num_out"], nout0), Eq(sess.f["next_num_in"], nin0))
+        cl = persist_clauses(env, out, fs, skey, d, msg, same)
+        jc.observe_db(env)
+        return keep(cl, which)
+    return harness
 
 
 # ---------------------------------------------------------------------------
@@ -181,51 +300,54 @@ def persist_harness(I):
 # ---------------------------------------------------------------------------
 
 
-def set_seq_harness(variant):
+def set_clauses(env, out, sess_after, skey, a_out, a_in, nout0, nin0):
+    pre, post = env.pre, env.post()
+    give_out, give_in = a_out is not None, a_in is not None
+    eff_out = a_out if give_out else nout0
+    eff_in = a_in if give_in else nin0
+    cl = []
+    bad = Or(*([Not(a_out > 0)] if give_out else []) + ([Not(a_in > 0)] if give_in else []) + [False])
+    refused = out[0] == "raise" and out[1].name() == "AssertionError"
+    cl.append(("set.refused_iff_not_positive", Eq(bad, refused)))
+    cl.append(("set.no_other_exception", out[0] == "ret" or refused))
+    if refused:
+        cl += env.unchanged(pre, post, "set.refused_changes_nothing")
+    if out[0] == "ret":
+        cl.append(("set.counters_stored", And(post.has_sess(skey), Eq(post.out(skey), eff_out - 1),
+                                              Eq(post.inn(skey), eff_in - 1))))
+        cl.append(("set.session_object", And(Eq(sess_after["nout"], eff_out), Eq(sess_after["nin"], eff_in))))
+        cl.append(("set.session_row_kept", And(Eq(post.target(skey), pre.target(skey)), Eq(post.sender(skey), pre.sender(skey)))))
+        for (k, sx, dx) in env.msg_probes():
+            gone = And(Eq(sx, skey), Or(And(Eq(dx, IN), k >= eff_in), And(Eq(dx, OUT), k >= eff_out)))
+            # removes exactly the messages numbered at or above the new values
+            cl.append(("set.removes_exactly", Eq(post.has_msg(k, sx, dx), And(pre.has_msg(k, sx, dx), Not(gone)))))
+            cl.append(("set.kept_messages_unchanged", Implies(post.has_msg(k, sx, dx), Eq(post.msg(k, sx, dx), pre.msg(k, sx, dx)))))
+        for i in env.sess_probes():
+            cl.append(("set.other_sessions_untouched", Implies(Not(Eq(i, skey)), same_sess_at(pre, post, i))))
+    cl += env.wf("set.")
+    cl += env.committed()
+    cl += crash_clauses(env, post, extra_s=[skey])
+    return cl
+
+
+def set_seq_harness(variant, which):
     give_out, give_in = variant
 
     def harness(I):
         env = JEnv(I, existing=True)
         c = I.ctx
-        pre = env.pre
         sess, skey = env.session_obj()
         a_out = c.inp_int("arg_out") if give_out else None
         a_in = c.inp_int("arg_in") if give_in else None
-        eff_out = a_out if give_out else sess.f["next_num_out"]
-        eff_in = a_in if give_in else sess.f["next_num_in"]
+        nout0, nin0 = sess.f["next_num_out"], sess.f["next_num_in"]
         # requires: the session object's own counters are positive (Inv.I1 of the connection)
-        c.assume(And(sess.f["next_num_out"] >= 1, sess.f["next_num_in"] >= 1))
+        c.assume(And(nout0 >= 1, nin0 >= 1))
         out = jc.run(I, I.getattr(env.j, "set_seq_num"), [sess], {"next_num_out": a_out, "next_num_in": a_in})
         jc.outcome_note(I, out)
-        post = env.post()
-        cl = []
-        bad = Or(*([Not(a_out > 0)] if give_out else []) + ([Not(a_in > 0)] if give_in else []) + [False])
-        refused = out[0] == "raise" and out[1].name() == "AssertionError"
-        cl.append(("set.refused_iff_not_positive", Eq(bad, refused)))
-        cl.append(("set.no_other_exception", out[0] == "ret" or refused))
-        if refused:
-            cl += env.unchanged(pre, post, "set.refused_changes_nothing")
-        if out[0] == "ret":
-            cl.append(("set.counters_stored", And(post.has_sess(skey), Eq(post.out(skey), eff_out - 1),
-                                                  Eq(post.inn(skey), eff_in - 1))))
-            cl.append(("set.session_object", And(Eq(sess.f["next_num_out"], eff_out), Eq(sess.f["next_num_in"], eff_in))))
-            cl.append(("set.session_row_kept", And(Eq(post.target(skey), pre.target(skey)), Eq(post.sender(skey), pre.sender(skey)))))
-            for (k, sx, dx) in env.msg_probes():
-                gone = And(Eq(sx, skey), Or(And(Eq(dx, IN), k >= eff_in), And(Eq(dx, OUT), k >= eff_out)))
-                # removes exactly the messages numbered at or above the new values
-                cl.append(("set.removes_exactly", Eq(post.has_msg(k, sx, dx), And(pre.has_msg(k, sx, dx), Not(gone)))))
-                cl.append(("set.kept_messages_unchanged", Implies(post.has_msg(k, sx, dx), Eq(post.msg(k, sx, dx), pre.msg(k, sx, dx)))))
-            for i in env.sess_probes():
-                cl.append(("set.other_sessions_untouched", Implies(Not(Eq(i, skey)), same_sess_at(pre, post, i))))
-        cl += env.wf("set.")
-        cl += env.committed()
-        for dv in env.commit_points():
-            for (k, sx, dx) in env.msg_probes():
-                cl.append(("c08.commit_is_whole_op.messages", same_msg_at(dv, post, k, sx, dx)))
-            for i in env.sess_probes() + [skey]:
-                cl.append(("c08.commit_is_whole_op.sessions", same_sess_at(dv, post, i)))
+        after = {"nout": sess.f["next_num_out"], "nin": sess.f["next_num_in"]}
+        cl = set_clauses(env, out, after, skey, a_out, a_in, nout0, nin0)
         jc.observe_db(env)
-        return cl
+        return keep(cl, which)
     return harness
 
 
@@ -234,64 +356,75 @@ def set_seq_harness(variant):
 # ---------------------------------------------------------------------------
 
 
-def recover_harness(I):
-    env = JEnv(I, existing=True)
-    c = I.ctx
-    pre = env.pre
-    sess, skey = env.session_obj()
-    dirv, d = env.direction()
-    a, b = c.inp_int("start"), c.inp_int("end")
-    out = jc.run(I, I.getattr(env.j, "recover_messages"), [sess, dirv, a, b])
-    jc.outcome_note(I, out)
-    post = env.post()
-    cl = [("recover.returns_list", out[0] == "ret" and isinstance(out[1], (SSeq, PyList)))]
-    if not cl[0][1]:
-        return cl
-    r = out[1]
+def recover_harness(which):
+    def harness(I):
+        env = JEnv(I, existing=True)
+        c = I.ctx
+        pre = env.pre
+        sess, skey = env.session_obj()
+        dirv, d = env.direction()
+        a, b = c.inp_int("start"), c.inp_int("end")
+        out = jc.run(I, I.getattr(env.j, "recover_messages"), [sess, dirv, a, b])
+        jc.outcome_note(I, out)
+        post = env.post()
+        cl = [("recover.returns_list", out[0] == "ret" and isinstance(out[1], (SSeq, PyList)))]
+        if not cl[0][1]:
+            return keep(cl, which)
+        r = out[1]
 
-    def wanted(k, sx, dx):
-        return And(pre.has_msg(k, sx, dx), Eq(sx, skey), Eq(dx, d), k >= a, k <= b)
-    if isinstance(r, sm.RowSeq):
-        n = r.n
-        j1, j2 = c.inp_int("j1"), c.inp_int("j2")
-        e1, e2 = r.elem(j1), r.elem(j2)
-        _, rowkey, idx = r.rs.as_seq()
-        k1 = rowkey(j1.t)
-        k2 = rowkey(j2.t)
-        in1 = And(j1 >= 0, j1 < n)
-        in2 = And(j2 >= 0, j2 < n)
-        # only its own session and direction, only numbers inside the range, bytes unchanged
-        cl.append(("recover.only_requested_rows",
-                   Implies(in1, And(wanted(SInt(k1[0]), SInt(k1[1]), SInt(k1[2])),
-                                    Eq(e1, pre.msg(SInt(k1[0]), SInt(k1[1]), SInt(k1[2])))))))
-        # ascending number order (strict: a number occurs once)
-        cl.append(("recover.ascending", Implies(And(in1, in2, j1 < j2), SInt(k1[0]) < SInt(k2[0]))))
-        # every stored message of the range is returned
-        for (k, sx, dx) in env.msg_probes():
-            p = (_t(k), _t(sx), _t(dx))
-            pos = SInt(idx(*p))
-            cl.append(("recover.complete", Implies(wanted(k, sx, dx), And(pos >= 0, pos < n, Eq(r.elem(pos), pre.msg(k, sx, dx))))))
-    else:
-        cl.append(("recover.empty_only_when_nothing_stored", len(r.items) == 0))
-        for (k, sx, dx) in env.msg_probes():
-            cl.append(("recover.empty_only_when_nothing_stored", Not(wanted(k, sx, dx))))
-    cl += env.unchanged(pre, post, "recover.journal_unchanged")
-    cl += env.committed()
-    jc.observe_db(env)
+        def wanted(k, sx, dx):
+            return And(pre.has_msg(k, sx, dx), Eq(sx, skey), Eq(dx, d), k >= a, k <= b)
+        if isinstance(r, sm.RowSeq):
+            n = r.n
+            j1, j2 = c.inp_int("j1"), c.inp_int("j2")
+            e1, e2 = r.elem(j1), r.elem(j2)
+            _, rowkey, idx = r.rs.as_seq()
+            k1 = rowkey(j1.t)
+            k2 = rowkey(j2.t)
+            in1 = And(j1 >= 0, j1 < n)
+            in2 = And(j2 >= 0, j2 < n)
+            # only its own session and direction, only numbers inside the range, bytes unchanged
+            cl.append(("recover.only_requested_rows",
+                       Implies(in1, And(wanted(SInt(k1[0]), SInt(k1[1]), SInt(k1[2])),
+                                        Eq(e1, pre.msg(SInt(k1[0]), SInt(k1[1]), SInt(k1[2])))))))
+            # ascending number order (strict: a number occurs once)
+            cl.append(("recover.ascending", Implies(And(in1, in2, j1 < j2), SInt(k1[0]) < SInt(k2[0]))))
+            # every stored message of the range is returned
+            for (k, sx, dx) in env.msg_probes():
+                p = (_t(k), _t(sx), _t(dx))
+                pos = SInt(idx(*p))
+                cl.append(("recover.complete", Implies(wanted(k, sx, dx), And(pos >= 0, pos < n, Eq(r.elem(pos), pre.msg(k, sx, dx))))))
+            c.realism.append(n.t <= 2)
+            r.rs.use_index(0)
+            r.rs.use_index(1)
+        else:
+            cl.append(("recover.empty_only_when_nothing_stored", len(r.items) == 0))
+            for (k, sx, dx) in env.msg_probes():
+                cl.append(("recover.empty_only_when_nothing_stored", Not(wanted(k, sx, dx))))
+        cl += env.unchanged(pre, post, "recover.journal_unchanged")
+        cl += env.committed()
+        jc.observe_db(env)
+        return keep(cl, which)
+    return harness
+
+
+def recover_concrete(env, out, skey, d, a, b):
+    pre = env.pre
+    cl = [("recover.returns_list", out[0] == "ret")]
+    if out[0] != "ret":
+        return cl
+    want = [pre.M[k] for k in sorted(pre.M) if k[1] == skey and k[2] == d and a <= k[0] <= b]
+    got = list(out[1])
+    cl.append(("recover.only_requested_rows", all(x in want for x in got)))
+    cl.append(("recover.complete", all(x in got for x in want)))
+    cl.append(("recover.ascending", got == want or sorted(got) != sorted(want)))
+    cl.append(("recover.empty_only_when_nothing_stored", bool(got) or not want))
+    cl += env.unchanged(pre, env.post(), "recover.journal_unchanged")
     return cl
 
 
-def recover_one_harness(I):
-    env = JEnv(I, existing=True)
-    c = I.ctx
-    pre = env.pre
-    sess, skey = env.session_obj()
-    dirv, d = env.direction()
-    q = c.inp_int("seq_no")
-    env.db.probe("message", (q, skey, d))
-    out = jc.run(I, I.getattr(env.j, "recover_msg"), [sess, dirv, q])
-    jc.outcome_note(I, out)
-    post = env.post()
+def recover_one_clauses(env, out, skey, d, q):
+    pre, post = env.pre, env.post()
     cl = [("recover_msg.returns", out[0] == "ret")]
     if out[0] == "ret":
         r = out[1]
@@ -300,10 +433,26 @@ def recover_one_harness(I):
             cl.append(("recover_msg.none_iff_absent", Not(has)))
         else:
             cl.append(("recover_msg.none_iff_absent", has))
-            cl.append(("recover_msg.bytes_unchanged", isinstance(r, SStr) and Eq(r, pre.msg(q, skey, d))))
+            cl.append(("recover_msg.bytes_unchanged", isinstance(r, (SStr, str)) and Eq(r, pre.msg(q, skey, d))))
     cl += env.unchanged(pre, post, "recover_msg.journal_unchanged")
-    jc.observe_db(env)
+    cl += env.committed()
     return cl
+
+
+def recover_one_harness(which):
+    def harness(I):
+        env = JEnv(I, existing=True)
+        c = I.ctx
+        sess, skey = env.session_obj()
+        dirv, d = env.direction()
+        q = c.inp_int("seq_no")
+        env.db.probe("message", (q, skey, d))
+        out = jc.run(I, I.getattr(env.j, "recover_msg"), [sess, dirv, q])
+        jc.outcome_note(I, out)
+        cl = recover_one_clauses(env, out, skey, d, q)
+        jc.observe_db(env)
+        return keep(cl, which)
+    return harness
 
 
 # ---------------------------------------------------------------------------
@@ -311,21 +460,23 @@ def recover_one_harness(I):
 # ---------------------------------------------------------------------------
 
 
-def init_harness(existing):
+def init_harness(existing, which):
     def harness(I):
         env = JEnv(I, existing=existing)
         I.ctx.notes.append(("outcome", "ret" if env.j is not None else "raise:" + env.init_outcome.name()))
-        cl = [("init.no_raise", env.j is not None)]
+        cl = [("init.no_raise", env.j is not None), ("c08.reopen.no_raise", env.j is not None)]
         if env.j is None:
-            return cl
+            return keep(cl, which)
         db = env.db
-        cl.append(("init.both_tables", set(db.pending) == {"message", "session"}))
-        if set(db.pending) != {"message", "session"}:
-            return cl
+        both = set(db.pending) == {"message", "session"}
+        cl.append(("init.both_tables", both))
+        if not both:
+            return keep(cl, which)
         post = env.post()
         if existing:
             init = JView(dict(db.initial))
             cl += env.unchanged(init, post, "init.reopen_keeps_contents")
+            cl += env.unchanged(init, post, "c08.reopen_keeps_contents")
         else:
             for (k, sx, dx) in env.msg_probes():
                 cl.append(("init.new_journal_is_empty", Not(post.has_msg(k, sx, dx))))
@@ -336,7 +487,7 @@ def init_harness(existing):
         cl.append(("init.message_key", ms["pk"] == ["seqNo", "session", "direction"]))
         cl.append(("init.session_key", ss["pk"] == ["sessionId"] and ["targetCompId", "senderCompId"] in ss["uniques"]))
         cl += env.committed()
-        return cl
+        return keep(cl, which)
     return harness
 
 
@@ -353,37 +504,178 @@ FUNCS = [JQ + ".__init__", JQ + ".create_or_load", JQ + ".sessions", JQ + ".find
          JQ + ".set_seq_num", JQ + ".recover_messages", JQ + ".recover_msg",
          "asyncfix.session.FIXSession.__init__"]
 
-TASKS = [
-    Task("init[existing]", init_harness(True), jc.journal_cfg, [JQ + ".__init__"]),
-    Task("init[new]", init_harness(False), jc.journal_cfg, [JQ + ".__init__"]),
-    Task("create_or_load[existing]", create_or_load_harness(True), jc.journal_cfg, [JQ + ".create_or_load"], native="journal"),
-    Task("create_or_load[new]", create_or_load_harness(False), jc.journal_cfg, [JQ + ".create_or_load"], native="journal"),
-    Task("sessions", sessions_harness, jc.journal_cfg, [JQ + ".sessions"], native="journal"),
-    Task("persist_msg", persist_harness, jc.journal_cfg, [JQ + ".persist_msg", JQ + ".find_seq_no"], native="journal"),
-    Task("set_seq_num[out,in]", set_seq_harness((True, True)), jc.journal_cfg, [JQ + ".set_seq_num"], native="journal"),
-    Task("set_seq_num[out]", set_seq_harness((True, False)), jc.journal_cfg, [JQ + ".set_seq_num"], native="journal"),
-    Task("set_seq_num[in]", set_seq_harness((False, True)), jc.journal_cfg, [JQ + ".set_seq_num"], native="journal"),
-    Task("set_seq_num[none]", set_seq_harness((False, False)), jc.journal_cfg, [JQ + ".set_seq_num"], native="journal"),
-    Task("recover_messages", recover_harness, jc.journal_cfg, [JQ + ".recover_messages"], native="journal"),
-    Task("recover_msg", recover_one_harness, jc.journal_cfg, [JQ + ".recover_msg"], native="journal"),
-    Task("mustfail", mustfail, jc.journal_cfg, [], expect_refuted=True),
+
+def make_tasks(which):
+    cfg = jc.journal_cfg
+    return [
+        Task("init[existing]", init_harness(True, which), cfg, [JQ + ".__init__"]),
+        Task("init[new]", init_harness(False, which), cfg, [JQ + ".__init__"]),
+        Task("create_or_load[existing]", create_or_load_harness(True, which), cfg, [JQ + ".create_or_load"], native="journal"),
+        Task("create_or_load[new]", create_or_load_harness(False, which), cfg, [JQ + ".create_or_load"], native="journal"),
+        Task("sessions", sessions_harness(which), cfg, [JQ + ".sessions"], native="journal"),
+        Task("persist_msg", persist_harness(which), persist_cfg, [JQ + ".persist_msg"], native="journal"),
+    ] + ([
+        Task("find_seq_no", find_seq_no_harness, precise_cfg, [JQ + ".find_seq_no"], timeout_ms=20000, cvc5_first=True),
+        Task("find_seq_no[total]", find_seq_no_total_harness, Config, [JQ + ".find_seq_no"]),
+    ] if which == "c13" else []) + [
+        Task("set_seq_num[out,in]", set_seq_harness((True, True), which), cfg, [JQ + ".set_seq_num"], native="journal"),
+        Task("set_seq_num[out]", set_seq_harness((True, False), which), cfg, [JQ + ".set_seq_num"], native="journal"),
+        Task("set_seq_num[in]", set_seq_harness((False, True), which), cfg, [JQ + ".set_seq_num"], native="journal"),
+        Task("set_seq_num[none]", set_seq_harness((False, False), which), cfg, [JQ + ".set_seq_num"], native="journal"),
+        Task("recover_messages", recover_harness(which), cfg, [JQ + ".recover_messages"], native="journal"),
+        Task("recover_msg", recover_one_harness(which), cfg, [JQ + ".recover_msg"], native="journal"),
+        Task("mustfail", mustfail, cfg, [], expect_refuted=True),
+    ]
+
+
+# ---------------------------------------------------------------------------
+# bridge to the native runner
+# ---------------------------------------------------------------------------
+
+
+def _rows(ob, state):
+    out = {}
+    for tname, rows in ob.get(state, {}).items():
+        out[tname] = [dict(r) for r in rows]
+    return out
+
+
+def native_case(task, inputs, crash=None):
+    ob = (inputs.get("__observed__") or {}).get("jdb")
+    if ob is None:
+        return None
+    name = task.name.split("[")[0]
+    case = {"initial": _rows(ob, "initial"), "autoinc": ob.get("autoinc"), "existing": ob.get("existing", True),
+            "op": name, "args": {}, "crash": crash}
+    a = case["args"]
+    if "sess_key" in inputs:
+        a["session"] = {"key": inputs["sess_key"], "target": inputs.get("sess_target", ""),
+                        "sender": inputs.get("sess_sender", ""), "nout": inputs.get("sess_nout"), "nin": inputs.get("sess_nin")}
+    if "dir" in inputs:
+        a["direction"] = inputs["dir"]
+    if name == "create_or_load":
+        a["target"], a["sender"] = inputs["target"], inputs["sender"]
+    elif name == "persist_msg":
+        a["msg"] = inputs["msg"]
+    elif name == "set_seq_num":
+        a["next_num_out"] = inputs.get("arg_out")
+        a["next_num_in"] = inputs.get("arg_in")
+    elif name == "recover_messages":
+        a["start"], a["end"] = inputs["start"], inputs["end"]
+    elif name == "recover_msg":
+        a["seq_no"] = inputs["seq_no"]
+    elif name not in ("sessions",):
+        return None
+    return case
+
+
+def witness_case(task, cover):
+    return native_case(task, cover["inputs"])
+
+
+def _dump_of(rows_by_table):
+    """engine rows (evaluated under a model) -> dump in the native runner's format."""
+    s, m = {}, {}
+    for r in rows_by_table.get("session", []):
+        if r["present"]:
+            s[r["key"][0]] = [r["key"][0], r["targetCompId"], r["senderCompId"], r["outboundSeqNo"], r["inboundSeqNo"]]
+    for r in rows_by_table.get("message", []):
+        if r["present"]:
+            m[tuple(r["key"])] = [r["key"][0], r["key"][1], r["key"][2], r["msg"]]
+    return {"session": [s[k] for k in sorted(s)], "message": [m[k] for k in sorted(m)]}
+
+
+def witness_agrees(task, cover, engine, obs):
+    if "harness_error" in obs:
+        obs["mismatch"] = obs["harness_error"][-400:]
+        return False
+    bad = []
+    if engine != obs.get("outcome"):
+        bad.append(("outcome", engine, obs.get("outcome")))
+    ob = cover["inputs"]["__observed__"]["jdb"]
+    want = _dump_of(ob["final"])
+    if "final" in obs and want != obs["final"]:
+        bad.append(("final tables", want, obs["final"]))
+    if bad:
+        obs["mismatch"] = bad
+    return not bad
+
+
+def replay_case(task, vc):
+    crash = "after_return" if "c08." in vc["name"] else None
+    case = native_case(task, vc["model"], crash=crash)
+    if case is None:
+        return None
+    return {"family": "journal", "case": case}
+
+
+def concrete_clauses(rp, obs):
+    """Clauses of the task evaluated on the native observation (same clause functions)."""
+    case = rp["native_case"]
+    name = case["op"]
+    a = case["args"]
+    if obs.get("outcome", "").startswith("raise:"):
+        out = ("raise", CExc(obs["outcome"].split(":", 1)[1]))
+    else:
+        out = ("ret", obs.get("result"))
+    pre_dump = obs.get("before") or _dump_of(case["initial"])
+    post_dump = obs.get("final") or obs.get("reopened")
+    env = CEnv(pre_dump, post_dump, obs.get("reopened"))
+    skey = a.get("session", {}).get("key")
+    if name == "create_or_load":
+        if out[0] == "ret":
+            out = ("ret", CSess(out[1]))
+        return create_or_load_clauses(env, out, a["target"], a["sender"])
+    if name == "sessions":
+        if out[0] == "ret":
+            out = ("ret", [[k, CSess(v)] for k, v in out[1]])
+        return sessions_concrete(env, out) + env.committed()
+    if name == "set_seq_num":
+        sa = obs.get("session_after", {})
+        return set_clauses(env, out, {"nout": sa.get("nout"), "nin": sa.get("nin")}, skey,
+                           a.get("next_num_out"), a.get("next_num_in"), a["session"]["nout"], a["session"]["nin"])
+    if name == "recover_messages":
+        return recover_concrete(env, out, skey, a["direction"], a["start"], a["end"]) + env.committed()
+    if name == "recover_msg":
+        return recover_one_clauses(env, out, skey, a["direction"], a["seq_no"])
+    if name == "persist_msg":
+        fs = obs.get("find_seq_no")
+        if fs is None:
+            return []
+        fsv = ("ret", fs["value"]) if fs["ok"] else ("raise", CExc(fs["exc"]))
+        sa = obs.get("session_after", {})
+        same = sa.get("nout") == a["session"]["nout"] and sa.get("nin") == a["session"]["nin"]
+        return persist_clauses(env, out, fsv, skey, a["direction"], a["msg"], same)
+    return []
+
+
+def violates(rp, obs):
+    if "harness_error" in obs or not obs.get("outcome"):
+        return False
+    want = rp["obligation"].split(".", 1)[1]
+    for n, c in concrete_clauses(rp, obs):
+        if n == want and c is False:
+            return True
+    return False
+
+
+ASSUMPTIONS = [
+    "A-SQL: relational semantics of the SQL statement shapes used by journaler.py (vfy/pyvc/sqlmodel.py): "
+    "INSERT / UPDATE / DELETE / SELECT with conjunctive WHERE, ORDER BY one column, PRIMARY KEY and UNIQUE "
+    "violations raise sqlite3.IntegrityError with statement-level atomicity, AUTOINCREMENT ids are fresh",
+    "sequence numbers and session ids fit SQLite's 64-bit INTEGER (machine arithmetic treated as mathematical); "
+    "parameters are integers / text, never None",
+    "the session object handed to the journal was returned by create_or_load of the same journal (its row exists)",
+    "A-ALL: the per-row loop rule (for row in cursor: acc.append(f(row)) / acc[k(row)] = v(row)) - the loop body is "
+    "executed on one arbitrary row and a syntactic frame scan shows it touches nothing but the accumulator",
+    "A-IND: the statement about operation sequences follows from the per-operation clauses and the table "
+    "invariants (UNIQUE CompID pairs, ids within the AUTOINCREMENT bound), which every operation re-establishes",
+    "soundness of z3 and of pyvc (path witnesses are replayed on CPython + real sqlite3)",
 ]
 
 PROPERTY = Property(
-    "C13", TASKS,
-    assumptions=[
-        "A-SQL: relational semantics of the SQL statement shapes used by journaler.py (vfy/pyvc/sqlmodel.py): "
-        "INSERT / UPDATE / DELETE / SELECT with conjunctive WHERE, ORDER BY one column, PRIMARY KEY and UNIQUE "
-        "violations raise sqlite3.IntegrityError with statement-level atomicity, AUTOINCREMENT ids are fresh",
-        "sequence numbers and session ids fit SQLite's 64-bit INTEGER (machine arithmetic treated as mathematical); "
-        "parameters are integers / text, never None",
-        "the session object handed to the journal was returned by create_or_load of the same journal (its row exists)",
-        "A-ALL: the per-row loop rule (for row in cursor: acc.append(f(row)) / acc[k(row)] = v(row)) - the loop body is "
-        "executed on one arbitrary row and a syntactic frame scan shows it touches nothing but the accumulator",
-        "A-IND: the statement about operation sequences follows from the per-operation clauses and the table "
-        "invariants (UNIQUE CompID pairs, ids within the AUTOINCREMENT bound), which every operation re-establishes",
-        "soundness of z3 and of pyvc (path witnesses are replayed on CPython + real sqlite3)",
-    ],
+    "C13", make_tasks("c13"),
+    assumptions=ASSUMPTIONS,
     trusted_base=["pyvc", "z3 5.1.0", "sqlmodel.py (assumed contract of sqlite3)"],
     functions=FUNCS,
     notes="Journaler methods are straight-line code around SQL statements; the statements are parsed from the real "
